@@ -333,6 +333,29 @@ theorem T_C15_history_fix (g : Grid) (s : SmState) (l : List Nat) (q : List V3) 
     (∀ i ∈ s.fixed, i ∈ (runOp g s (.fixIdx l)).fixed ∧ i ∈ (runOp g s (.fixPts q)).fixed) := by
   refine ⟨?_, ?_, ?_⟩ <;> intro i hi <;> simp [runOp, hi]
 
+/-- `fix_points` matches by the *absolute* distance `< TOL` only: moving the whole geometry and the given
+    positions by any vector — however far from the origin — fixes exactly the same junctions. -/
+theorem T_C15_fix_points_translation (tol : Rat) (t : V3) (p q : List V3) :
+    fixPoints tol (p.map (fun x => x + t)) (q.map (fun x => x + t)) = fixPoints tol p q := by
+  unfold fixPoints
+  rw [List.flatMap_map, List.length_map]
+  apply List.flatMap_congr
+  intro x _
+  apply List.filter_congr
+  intro j hj
+  have hlt : j < p.length := List.mem_range.mp hj
+  have hp : pget (p.map (fun x => x + t)) j = pget p j + t := by
+    simp [pget, List.getD_eq_getElem?_getD, hlt]
+  rw [hp]
+  have : V3.norm2 (x + t - (pget p j + t)) = V3.norm2 (x - pget p j) := by
+    simp only [V3.norm2, V3.dot, V3.sub_x, V3.sub_y, V3.sub_z, V3.add_x, V3.add_y, V3.add_z]; ring
+  rw [this]
+
+/-- … and a junction is fixed by `fix_points([q])` iff it lies within TOL of `q` -/
+theorem T_C15_fix_points_radius (tol : Rat) (p : List V3) (q : V3) (j : Nat) :
+    j ∈ fixPoints tol p [q] ↔ j < p.length ∧ V3.norm2 (q - pget p j) < tol := by
+  simp [fixPoints, List.mem_filter]
+
 /-- non-vacuity: fix by position, then by index, then smooth: both stay, the fixed set holds both -/
 example :
     let g : Grid := structQuads 3 3
